@@ -412,7 +412,9 @@ def fuzz_phase(mod, paths, tier, seed):
         d = os.path.join(OUT, mod.ID, "fuzz-%s-%d" % (spec["target"], os.getpid()))
         os.makedirs(d, exist_ok=True)
         procs = []
-        env = dict(os.environ, ASAN_OPTIONS="detect_leaks=0:abort_on_error=0:handle_segv=1")
+        # spec["asan"]: extra ASan options (fz_exc: deep, varied recursion gives every allocation a new stack trace, and the
+        # stack depot and the quarantine then grow by gigabytes over a campaign)
+        env = dict(os.environ, ASAN_OPTIONS="detect_leaks=0:abort_on_error=0:handle_segv=1" + spec.get("asan", ""))
         for j in range(jobs):
             cd = os.path.join(d, "corpus%d" % j)
             os.makedirs(cd, exist_ok=True)
